@@ -1,9 +1,9 @@
-\* intended flush rules, pending atom not discarded on delete: TLC finds the commit crash (real defect C13-e)
+\* repaired except commit recomputes only the pending set: TLC finds stale hydrogens after SetCharge + AddAtom in one transaction (real defect C13-f)
 CONSTANTS MaxAtom = 3
  FlushOnDelete = TRUE
  FlushOnCommit = TRUE
  ResetChangedOnAbort = TRUE
- DiscardOnDelete = FALSE
+ DiscardOnDelete = TRUE
  RecalcAllOnCommit = FALSE
 SPECIFICATION Spec
 INVARIANT CacheCoherent
